@@ -107,6 +107,18 @@ CLAIMED = {
              'by the native replay harness only.',
         technique='contract-based deductive verification (pyvc + z3): attribute-safety and pass-through obligations '
                   'against reflected class tables', design_ref='DESIGN.md 7 C15'),
+    'C17': dict(
+        text='Deductive verification of BasicRender.render_response per kind of endpoint result (str, bytes, int, bool, '
+             'None, non-sized object, sized non-text object): always a 200 Response, never an exception, with the '
+             'mimetype the statement gives (JSON-looking text -> application/json, HTML document -> text/html, other '
+             'text -> text/plain, non-sized -> text/plain, sized -> JSON unless HTML is asked for); _guess_json against '
+             'the statement (non-empty, first/last bytes {} or []); ClasticJSONEncoder.default raises TypeError only '
+             'outside dev mode. NameError-freedom is a generic safety obligation (every global name is resolved in the '
+             'reflected module namespace).',
+        note='json/boltons-table internals assumed (A-json, A-tbl); the JSON and tabular renderers invoked for sized '
+             'values are summarised as returning a Response; user serialisation hooks are assumed total.',
+        technique='contract-based deductive verification (pyvc + z3) with typed kind cases',
+        design_ref='DESIGN.md 7 C17'),
 }
 
 REASONS = {}
